@@ -238,6 +238,10 @@ impl<'a> GExec<'a> {
     }
 
     pub fn dest_addr(&self, d: u8) -> Address {
+        if d >= 100 {
+            // the account address that carries the same 32 bytes as destination d - 100
+            return crate::host::account_twin(self.env(), &self.dest_addr(d - 100));
+        }
         let n = if self.ngw() > 1 { 6 } else { 4 };
         match d as usize % n {
             0 => self.gws[0].example.clone(),
@@ -250,6 +254,9 @@ impl<'a> GExec<'a> {
     }
     /// principal index if the destination is an account the simulator can sign for
     pub fn dest_principal(&self, d: u8) -> Option<usize> {
+        if d >= 100 {
+            return None;
+        }
         let n = if self.ngw() > 1 { 6 } else { 4 };
         match d as usize % n {
             2 => Some(4),
@@ -284,6 +291,7 @@ impl<'a> GExec<'a> {
                 source_address: SRCS[m.src as usize % SRCS.len()].to_string(),
                 contract: addr_bytes(&self.dest_addr(m.dest)),
                 payload_hash: keccak(&payload),
+                account: m.dest >= 100,
             },
             payload,
         )
@@ -297,6 +305,16 @@ impl<'a> GExec<'a> {
             source_address: SStr::from_str(env, &m.source_address),
             contract_address: dest.clone(),
             payload_hash: BytesN::from_array(env, &m.payload_hash),
+        }
+    }
+
+    /// the destination address a message names (an account twin when `m.account`)
+    pub fn addr_of_msg(&self, m: &MMsg) -> Address {
+        let c = self.addr_of_contract_id(&m.contract);
+        if m.account {
+            crate::host::account_twin(self.env(), &c)
+        } else {
+            c
         }
     }
 
@@ -993,6 +1011,7 @@ impl<'a> GExec<'a> {
         // caller itself as destination
         let claimed = MMsg {
             contract: addr_bytes(&caller_addr),
+            account: false,
             ..m.clone()
         };
         let key = (m.source_chain.clone(), m.message_id.clone());
@@ -1079,6 +1098,7 @@ impl<'a> GExec<'a> {
         let gaddr = self.gws[g].addr.clone();
         let claimed = MMsg {
             contract: addr_bytes(&app_addr),
+            account: false,
             ..m.clone()
         };
         let key = (m.source_chain.clone(), m.message_id.clone());
